@@ -36,6 +36,9 @@ type vfSerCase struct {
 	// after the history, up to three REMOVED ids are added again with other content (update = remove
 	// + add): the state that is written then holds re-used ids (tombstone and live entry of one id)
 	ReAdd bool `json:"re_add,omitempty"`
+	// trainable vector kinds: after the history the index is trained AGAIN, on another sample (the
+	// reverse of every second training vector): "train" is an operation of the history like any other
+	ReTrain bool `json:"re_train,omitempty"`
 }
 
 // vfChunkReader returns at most n bytes per Read and offers nothing but Read.
@@ -63,6 +66,7 @@ func vfSerGen(rt *rapid.T, kinds []string) vfSerCase {
 	c.RemoveAll = rapid.IntRange(0, 9).Draw(rt, "remove_all") == 0
 	c.Chunk = rapid.SampledFrom([]int{0, 0, 1, 2, 3, 5, 7, 13, 64}).Draw(rt, "reader_chunk")
 	c.ReAdd = rapid.IntRange(0, 3).Draw(rt, "re_add_removed_ids") == 0
+	c.ReTrain = rapid.IntRange(0, 3).Draw(rt, "re_train") == 0
 	switch c.Kind {
 	case "bm25":
 		t := vfC03Gen(rt)
@@ -386,6 +390,31 @@ func (s *vfSerState) applyHistory() {
 	if c.ReAdd && !c.RemoveAll {
 		s.reAddSome()
 	}
+	if c.ReTrain && !c.Untrained && c.Vec != nil && (c.Kind == "ivf" || c.Kind == "pq" || c.Kind == "ivfpq") && len(c.Vec.Train) > 0 {
+		var nodes []VectorNode
+		for i := len(c.Vec.Train) - 1; i >= 0; i-- {
+			if i%2 == 0 || len(c.Vec.Train) < 2*vfTrainNeed(c) {
+				nodes = append(nodes, *NewVectorNodeWithID(uint32(900000+i), vfCloneF32(c.Vec.Train[i])))
+			}
+		}
+		s.ut.idx.Train(nodes) // refused or accepted: either way the state is "reachable"
+	}
+}
+
+func vfTrainNeed(c *vfSerCase) int {
+	switch c.Kind {
+	case "ivf":
+		return c.Vec.NList
+	case "pq":
+		return 1 << c.Vec.NBits
+	case "ivfpq":
+		need := 1 << c.Vec.NBits
+		if c.Vec.NList*10 > need {
+			need = c.Vec.NList * 10
+		}
+		return need
+	}
+	return 0
 }
 
 // reAddSome re-adds up to three removed ids with new content.
